@@ -442,6 +442,15 @@ def gen_op(rng, ex: Exec, kinds=None, p_bad=0.12):
         return {"op": k, "coefs": [[r, dy(rng, -3, 3, 2)] for r in rs]}
     if k == "set_dir":
         return {"op": k, "d": rng.choice(["max", "min", "maximize", "MIN"] + (["up"] if bad else []))}
+    if k == "add_rxns" and mids and rng.random() < 0.4:
+        # the shape the Lean model covers: one reaction over metabolites of the model, no rule (the id may be taken: then it is ignored)
+        pool = rng.sample(mids, min(len(mids), rng.randint(1, 3)))
+        st = [[x, dy(rng, -3, 3, 2)] for x in pool]
+        st = [[x, c] for x, c in st if Fraction(c) != 0] or [[pool[0], "1"]]
+        lb, ub = gen_bounds(rng)
+        if bad:
+            lb, ub = ub, lb
+        return {"op": k, "rxns": [{"id": rng.choice(RIDS), "lb": lb, "ub": ub, "st": st, "rule": ""}], "keys": rng.choice(["obj", "copy"])}
     if k == "add_rxns":
         rx = []
         for _ in range(rng.randint(1, 2)):
